@@ -989,6 +989,10 @@ func evalLogicComparator(vm *r.VM, expr *syntax.LogicExpr) (*value.Bool, error) 
 	if err != nil {
 		return nil, err
 	}
+	// (its value now, see evalArithExpr)
+	if leftNum, ok := left.(*value.Number); ok {
+		left = value.NewNumber(leftNum.GetValue())
+	}
 	// #2. eval right
 	right, err := evalExpression(vm, expr.RightExpr)
 	if err != nil {
@@ -1172,6 +1176,9 @@ func evalArithExpr(vm *r.VM, expr *syntax.ArithExpr) (*value.Number, error) {
 	if !ok {
 		return nil, zerr.InvalidExprType("number")
 	}
+	// the operand's value is its value now: the number may be the element of a variable that
+	// the right operand changes in place (以甲（自增：1））
+	leftNum = value.NewNumber(leftNum.GetValue())
 	// exec right expr
 	rightExpr, err := evalExpression(vm, expr.RightExpr)
 	if err != nil {
@@ -1216,6 +1223,10 @@ func evalArithTypeModuloExpr(vm *r.VM, expr *syntax.ArithExpr) (r.Element, error
 	leftExpr, err := evalExpression(vm, expr.LeftExpr)
 	if err != nil {
 		return nil, err
+	}
+	// (its value now, see evalArithExpr)
+	if leftNum, ok := leftExpr.(*value.Number); ok {
+		leftExpr = value.NewNumber(leftNum.GetValue())
 	}
 
 	rightExpr, err := evalExpression(vm, expr.RightExpr)
